@@ -927,8 +927,9 @@ def _sym_attr(I, obj, name):
         return tofile
     if name == "tolist":
         return lambda: I.to_list(a)
-    if name in ("mean", "sum", "all", "any"):
-        fn = {"mean": _mean, "sum": _npsum, "all": _np_all, "any": _np_any}[name]
+    if name in ("mean", "sum", "all", "any", "min", "max", "argmax", "cumsum"):
+        fn = {"mean": _mean, "sum": _npsum, "all": _np_all, "any": _np_any, "min": lambda *q: _npmin(*q), "max": lambda *q: _npmax(*q),
+              "argmax": lambda *q: _argmax_model(False)(*q), "cumsum": lambda *q: _cumsum(*q)}[name]
         return lambda *x, **kw: fn(I, [a] + list(x), kw)
     if name == "swapaxes":
         def swapaxes(i, j):
@@ -1872,3 +1873,17 @@ def _nan_to_num(I, a, k):
     rep = to_real(term(k.get("nan", 0.0)))
     xs = x.snapshot()
     return SArr(x.dtype, x.shape, lambda idx: (lambda v: z3.If(v == NAN, rep, v))(xs(idx)))
+
+
+@model(np.copyto)
+def _copyto(I, a, k):
+    """np.copyto(dst, src): dst[...] = src (broadcast, cast to dst's dtype); `where` / casting options are not modelled"""
+    if not _anysym(a, k):
+        return NotImplemented
+    if k.get("where", True) is not True:
+        raise Unsupported("np.copyto with a where mask")
+    dst = a[0]
+    if not isinstance(dst, SArr):
+        raise Unsupported("np.copyto into a concrete array with symbolic source")
+    A.setitem(dst, tuple([slice(None)] * dst.ndim) if dst.ndim else (), a[1])
+    return None
